@@ -2,8 +2,12 @@
   C04 — model of the NUTS step-size adaptation, nuts.rs 676-690 (inside `step`), `init_chain` (528-545) and
   `find_reasonable_epsilon` (695-761).
 
-      eta = 1/(m + t0);  h_bar = (1-eta)·h_bar + eta·(δ - α/n_α)
-      if m <= n_discard { ε = exp(μ - √m/γ·h_bar);  eta = m^(-κ);  ε̄ = exp((1-eta)·ln ε̄ + eta·ln ε) } else { ε = ε̄ }
+      if m <= n_discard { eta = 1/(m + t0);  h_bar = (1-eta)·h_bar + eta·(δ - α/n_α)
+                          ε = clamp(exp(μ - √m/γ·h_bar));  eta = m^(-κ);  ε̄ = clamp(exp((1-eta)·ln ε̄ + eta·ln ε)) }
+      else { ε = ε̄ }
+      clamp(e) = e.max(T::min_positive_value()).min(T::max_value())
+
+  (since fix aad1add: before it, h_bar was updated on every transition and there was no clamp — finding F9.)
 -/
 
 namespace MiniMcmcVerif.DualAvg
@@ -14,6 +18,13 @@ class TrOps (K : Type) where
   sqrt : K → K
   /-- `x.powf(-κ)` -/
   npow : K → K → K
+  /-- `clamp lo hi e = e.max(lo).min(hi)` with Rust's `max`/`min` (a NaN operand loses) -/
+  clamp : K → K → K → K
+
+/-- Rust `e.max(lo).min(hi)` spelled with comparisons only: an `e` that is not `≥ lo` (too small, or NaN) gives `lo`. -/
+def clampOrd {K : Type} [LE K] [DecidableLE K] (lo hi e : K) : K :=
+  let y := if lo ≤ e then e else lo
+  if y ≤ hi then y else hi
 
 structure Adapt (K : Type) where
   m : Nat
@@ -25,19 +36,20 @@ structure Adapt (K : Type) where
 
 variable {K : Type} [Add K] [Sub K] [Mul K] [Div K] [NatCast K] [TrOps K]
 
-/-- the adaptation at the end of `step` (after `self.m += 1` at its start), given the transition's statistic `a = α/n_α` -/
-def adaptStep (delta gamma kappa : K) (t0 : Nat) (st : Adapt K) (a : K) : Adapt K :=
+/-- the adaptation at the end of `step` (after `self.m += 1` at its start), given the transition's statistic `a = α/n_α`;
+    `lo`/`hi` are `T::min_positive_value()` / `T::max_value()` -/
+def adaptStep (lo hi : K) (delta gamma kappa : K) (t0 : Nat) (st : Adapt K) (a : K) : Adapt K :=
   let m := st.m + 1
-  let eta := ((1 : Nat) : K) / ((m + t0 : Nat) : K)
-  let hBar := (((1 : Nat) : K) - eta) * st.hBar + eta * (delta - a)
   if m ≤ st.nDiscard then
+    let eta := ((1 : Nat) : K) / ((m + t0 : Nat) : K)
+    let hBar := (((1 : Nat) : K) - eta) * st.hBar + eta * (delta - a)
     let mK : K := ((m : Nat) : K)
-    let eps := TrOps.exp (st.mu - TrOps.sqrt mK / gamma * hBar)
+    let eps := TrOps.clamp lo hi (TrOps.exp (st.mu - TrOps.sqrt mK / gamma * hBar))
     let eta2 := TrOps.npow mK kappa
-    let epsBar := TrOps.exp ((((1 : Nat) : K) - eta2) * TrOps.ln st.epsBar + eta2 * TrOps.ln eps)
+    let epsBar := TrOps.clamp lo hi (TrOps.exp ((((1 : Nat) : K) - eta2) * TrOps.ln st.epsBar + eta2 * TrOps.ln eps))
     { st with m := m, eps := eps, epsBar := epsBar, hBar := hBar }
   else
-    { st with m := m, eps := st.epsBar, hBar := hBar }
+    { st with m := m, eps := st.epsBar }
 
 /-- `init_chain`: stores the warm-up length of this run and re-centres `μ = ln(10 ε)`; keeps `m`, `h_bar`, `ε̄`, `ε`
     (`ε` is found by `find_reasonable_epsilon` on first use only — passed in as `eps0`). -/
@@ -46,7 +58,7 @@ def initChain (st : Adapt K) (nDiscard : Nat) (firstUse : Bool) (eps0 : K) : Ada
   { st with nDiscard := nDiscard, eps := eps, mu := TrOps.ln (((10 : Nat) : K) * eps) }
 
 /-- a whole `run` as far as the step size is concerned: `init_chain`, then one `adaptStep` per transition -/
-def runAdapt (delta gamma kappa : K) (t0 : Nat) (st : Adapt K) (nDiscard : Nat) (firstUse : Bool) (eps0 : K) (stats : List K) : Adapt K :=
-  stats.foldl (adaptStep delta gamma kappa t0) (initChain st nDiscard firstUse eps0)
+def runAdapt (lo hi : K) (delta gamma kappa : K) (t0 : Nat) (st : Adapt K) (nDiscard : Nat) (firstUse : Bool) (eps0 : K) (stats : List K) : Adapt K :=
+  stats.foldl (adaptStep lo hi delta gamma kappa t0) (initChain st nDiscard firstUse eps0)
 
 end MiniMcmcVerif.DualAvg
